@@ -92,6 +92,7 @@ theorem copyInit_writes (hash : JVal → String) (files : List (Comps × Content
           · cases heq
         · cases heq
         · cases heq
+        · cases heq
           simp only [List.mem_singleton] at hw'
           subst hw'
           exact ⟨id, [fnSp], rfl, hid, by intro c hc; left; simpa using hc⟩
